@@ -110,6 +110,7 @@ type LogOpts struct {
 	TTLLabel   bool // a third of the streams carry the reserved label __ttl_days__ (stripped by the writer, sets the row TTL)
 	Huge       bool // every stream is more than 1 MiB: the parser hands the body over in one portion per stream
 	LabelPool  []string
+	Exact      int  // > 0: the first stream has exactly this many entries (threshold boundaries)
 	Pad        int  // every line is padded by this many bytes
 	Unordered  bool // half of the streams push their entries out of time order (legal: the store orders by timestamp)
 }
@@ -167,6 +168,9 @@ func NewLogCase(r *rand.Rand, o LogOpts) LogCase {
 		ne := 1 + r.Intn(o.MaxEntries)
 		if o.Big && s == 0 {
 			ne = 1100 + r.Intn(1500)
+		}
+		if o.Exact > 0 && s == 0 {
+			ne = o.Exact
 		}
 		if o.Huge {
 			ne = 1900 + r.Intn(300) // every stream is a portion of its own (the parsers cut between streams)
